@@ -3,7 +3,8 @@
 From Dashu Require Import Base.Prelude Base.Words Int.ModRingSpec Int.ModRingSpecProofs
   Int.ModRingPowModel Int.ModRingPowProofs Int.ModRingModel Int.ModRingProofs Int.ModRingOpsProofs
   Int.ModRingMain Int.ModRingExpr Int.ModRingInst Int.ModRingInstProofs
-  Int.DivWordModel Int.ModRingWords Int.ModRingWordsProofs.
+  Int.DivWordModel Int.DivLargeProofs Int.DivContracts Int.ModRingWords Int.ModRingWordsProofs Int.ModRingWordsMulProofs Int.ModRingWordsInst
+  Int.DivNumModular Int.ModRingNumModular.
 Open Scope Z_scope.
 
 (** ---------------- what the statement demands of the specification ---------------- *)
@@ -319,3 +320,131 @@ Theorem C13_words_one : forall w, 2 <= w -> forall R r f2, lring_ok w R r -> rin
   Words.wf w (wl_one R) /\ length (wl_one R) = length (lr_nd R) /\ raw_one w f2 r = Ok (Words.value w (wl_one R)).
 Proof. exact wl_one_ok. Qed.
 Print Assumptions C13_words_one.
+
+(** ---------------- multiplication, squaring and exponentiation on word lists ---------------- *)
+(** mul_normalized / sqr_normalized (trim, multiply, shift, full division or one conditional subtraction) return the
+    words of the value-level model for all valid operands, for any kernels meeting the contracts of
+    mul::multiply, sqr::sqr and div::div_rem_in_place *)
+Theorem C13_words_mul_refines : forall w, 2 <= w -> forall mulk sqrk divk,
+  (forall a b, Words.wf w a -> Words.wf w b ->
+     exists r, mulk a b = Ok r /\ length r = (length a + length b)%nat /\ Words.wf w r /\ Words.value w r = Words.value w a * Words.value w b) ->
+  (forall a, Words.wf w a ->
+     exists r, sqrk a = Ok r /\ length r = (2 * length a)%nat /\ Words.wf w r /\ Words.value w r = Words.value w a * Words.value w a) ->
+  (forall lhs rhs, kernel_pre w lhs rhs -> exists res c, divk lhs rhs = Ok (res, c) /\ kernel_post w lhs rhs res c) ->
+  forall R r a b, lring_ok w R r -> ring_wf w r -> Words.wf w a -> Words.wf w b ->
+  wl_is_valid R a = true -> wl_is_valid R b = true ->
+  (exists l, wl_mul_normalized w mulk divk R a b = Ok l /\ Words.wf w l /\ length l = length (lr_nd R) /\
+             Words.value w l = l_mul_normalized w r (Words.value w a) (Words.value w b)) /\
+  (exists l, wl_sqr_normalized w sqrk divk R a = Ok l /\ Words.wf w l /\ length l = length (lr_nd R) /\
+             Words.value w l = l_sqr_normalized w r (Words.value w a)) /\
+  (exists l, wl_mul_in_place w mulk sqrk divk R a b = Ok l /\ Words.wf w l /\ length l = length (lr_nd R) /\
+             Words.value w l = l_mul w r (Words.value w a) (Words.value w b)).
+Proof.
+  intros w Hw mulk sqrk divk Hm Hs Hd R r a b HR Hwf Ha Hb Va Vb. split; [|split].
+  - exact (wl_mul_normalized_ok w Hw mulk divk Hm Hd R r a b HR Hwf Ha Hb Va Vb).
+  - exact (wl_sqr_normalized_ok w Hw sqrk divk Hs Hd R r a HR Hwf Ha Va).
+  - exact (wl_mul_in_place_ok w Hw mulk sqrk divk Hm Hs Hd R r a b HR Hwf Ha Hb Va Vb).
+Qed.
+Print Assumptions C13_words_mul_refines.
+
+(** with the REAL kernels: C01's as-is models of mul::multiply / sqr::sqr (thresholds of the source, proved in Ring*.v)
+    and C02's as-is model of div::div_rem_in_place (proved in Div*.v); remaining premises = the two contracts C02's
+    division theorems themselves assume (num-modular div_rem_3by2; add_signed_mul with a negative sign) *)
+Theorem C13_words_mul_real : forall w, 8 <= w -> forall f3 fms, contract_3by2 w f3 -> contract_mul_sub w fms ->
+  forall R r x y a b, lring_ok w R r -> ring_wf w r -> wrep w R r x a -> wrep w R r y b ->
+  (exists c, wl_mul_in_place w (k_mul w) (k_sqr w) (k_div w f3 fms) R a b = Ok c /\ wrep w R r (x * y) c) /\
+  (exists c, wl_mul_normalized w (k_mul w) (k_div w f3 fms) R a b = Ok c /\ wrep w R r (x * y) c) /\
+  (exists c, wl_sqr w (k_sqr w) (k_div w f3 fms) R a = Ok c /\ wrep w R r (x * x) c).
+Proof. exact real_mul_ops. Qed.
+Print Assumptions C13_words_mul_real.
+
+(** large::pow (sliding window, table of odd powers) on word lists with the real kernels: every exponent *)
+Theorem C13_words_pow_real : forall w, 8 <= w -> forall f3 fms, contract_3by2 w f3 -> contract_mul_sub w fms ->
+  forall R r x a e, lring_ok w R r -> ring_wf w r -> wrep w R r x a -> 0 <= e ->
+  exists c, wl_pow w (k_mul w) (k_sqr w) (k_div w f3 fms) R a e = Ok c /\ wrep w R r (x ^ e) c.
+Proof. exact real_pow. Qed.
+Print Assumptions C13_words_pow_real.
+
+(** ... with num-modular's div_rem_3by2 as transcribed (C02: DivNumModular.v, proved in DivNumModularProofs.v): the
+    only premise left is add_signed_mul(c, Negative, a, b) on an accumulator longer than the product *)
+Theorem C13_words_mul_pow_real_nm : forall w fms, 8 <= w -> contract_mul_sub w fms ->
+  forall R r x y a b e, lring_ok w R r -> ring_wf w r -> wrep w R r x a -> wrep w R r y b -> 0 <= e ->
+  (exists c, wl_mul_in_place w (k_mul w) (k_sqr w) (k_div w (nm3by2 w) fms) R a b = Ok c /\ wrep w R r (x * y) c) /\
+  (exists c, wl_sqr w (k_sqr w) (k_div w (nm3by2 w) fms) R a = Ok c /\ wrep w R r (x * x) c) /\
+  (exists c, wl_pow w (k_mul w) (k_sqr w) (k_div w (nm3by2 w) fms) R a e = Ok c /\ wrep w R r (x ^ e) c).
+Proof.
+  intros w fms Hw Hms R r x y a b e HR Hwf Ha Hb He.
+  destruct (real_mul_ops_nm w fms Hw Hms R r x y a b HR Hwf Ha Hb) as (H1 & _ & H3).
+  split; [exact H1|]. split; [exact H3|]. exact (real_pow_nm w fms Hw Hms R r x a e HR Hwf Ha He).
+Qed.
+Print Assumptions C13_words_mul_pow_real_nm.
+
+(** ---------------- the contracts of num-modular removed ---------------- *)
+(** invm (extended Euclid through subm / mulm / negm, src/prim.rs) as transcribed = the specification's inverse *)
+Theorem C13_nm_invm : forall x m, 0 < m -> 0 <= x -> nm_invm_asis x m = Ok (inv_spec m x).
+Proof. exact nm_invm_asis_correct. Qed.
+Print Assumptions C13_nm_invm.
+
+(** [externals_ok] holds for the transcribed div_rem_2by1 / div_rem_3by2 (C02's proofs) and invm, given only the
+    contract of dashu's multi-word gcd_ext *)
+Theorem C13_nm_externals : forall w fgcd, 2 <= w -> gcd_ext_ok fgcd -> externals_ok w (nm2by1 w) (nm3by2 w) nm_finv fgcd.
+Proof. exact externals_nm. Qed.
+Print Assumptions C13_nm_externals.
+
+(** no hypothesis on any external function: construction, reduce, + - * neg dbl sqr ==, pow - all rings, all inputs *)
+Theorem C13_nm_reduce : forall w, 2 <= w -> forall id m x, 1 <= m ->
+  exists r e, new_ring w id m = Ok r /\ ring_wf w r /\ r_m r = m /\ r_id r = id /\
+    reduce_asis w (nm2by1 w) (nm3by2 w) r x = Ok e /\ rep r x e /\
+    residue_asis e = Ok (x mod m) /\ modulus_asis e = m /\ 0 <= x mod m < m.
+Proof. exact nm_reduce. Qed.
+Print Assumptions C13_nm_reduce.
+
+Theorem C13_nm_ring_ops : forall w, 2 <= w -> forall r x y a b, ring_wf w r -> rep r x a -> rep r y b ->
+  (exists c, add_asis w a b = Ok c /\ rep r (x + y) c) /\
+  (exists c, sub_asis w a b = Ok c /\ rep r (x - y) c) /\
+  (exists c, mul_asis w (nm2by1 w) (nm3by2 w) a b = Ok c /\ rep r (x * y) c) /\
+  (exists c, neg_asis a = Ok c /\ rep r (- x) c) /\
+  (exists c, dbl_asis w a = Ok c /\ rep r (2 * x) c) /\
+  (exists c, sqr_asis w (nm2by1 w) (nm3by2 w) a = Ok c /\ rep r (x * x) c) /\
+  eq_asis a b = Ok (x mod r_m r =? y mod r_m r).
+Proof. exact nm_ring_ops. Qed.
+Print Assumptions C13_nm_ring_ops.
+
+Theorem C13_nm_pow : forall w, 2 <= w -> forall r x a e, ring_wf w r -> rep r x a -> 0 <= e ->
+  exists c, pow_asis w (nm2by1 w) (nm3by2 w) a e = Ok c /\ rep r (x ^ e) c.
+Proof. exact nm_pow. Qed.
+Print Assumptions C13_nm_pow.
+
+(** inverse in the single / double word rings: unconditional (invm proved, gcd_ext not called) *)
+Theorem C13_nm_inv_small : forall w, 2 <= w -> forall fgcd r x a, r_kind r <> KLarge -> ring_wf w r -> rep r x a ->
+  exists o, inv_asis w nm_finv fgcd a = Ok o /\
+     match o with
+     | Some c => exists v, rep r v c /\ is_inverse (r_m r) x (v mod r_m r) /\ Z.gcd x (r_m r) = 1
+     | None => Z.gcd x (r_m r) <> 1
+     end.
+Proof. exact nm_inv_small_ok. Qed.
+Print Assumptions C13_nm_inv_small.
+
+(** inverse, division and whole expressions in every ring: the only premise is the contract of gcd_ext *)
+Theorem C13_nm_inv_div : forall w, 2 <= w -> forall fgcd r x y a b, gcd_ext_ok fgcd -> ring_wf w r -> rep r x a -> rep r y b ->
+  ((exists c, inv_asis w nm_finv fgcd a = Ok (Some c)) <-> Z.gcd x (r_m r) = 1) /\
+  match div_spec (r_m r) x y with
+  | Ok q => exists c, div_asis w (nm2by1 w) (nm3by2 w) nm_finv fgcd a b = Ok c /\ rep r q c
+  | Panic p => div_asis w (nm2by1 w) (nm3by2 w) nm_finv fgcd a b = Panic p
+  | _ => False
+  end.
+Proof.
+  intros w Hw fgcd r x y a b Hg Hwf Ha Hb. split.
+  - exact (proj2 (nm_inv w Hw fgcd r x a Hg Hwf Ha)).
+  - exact (nm_div w Hw fgcd r x y a b Hg Hwf Ha Hb).
+Qed.
+Print Assumptions C13_nm_inv_div.
+
+Theorem C13_nm_expr : forall w, 2 <= w -> forall fgcd r e, gcd_ext_ok fgcd -> ring_wf w r -> exps_ok e ->
+  match eval_spec (r_m r) e with
+  | Ok q => exists c, eval_asis w (nm2by1 w) (nm3by2 w) nm_finv fgcd r e = Ok c /\ rep r q c
+  | Panic p => eval_asis w (nm2by1 w) (nm3by2 w) nm_finv fgcd r e = Panic p
+  | _ => False
+  end.
+Proof. exact nm_expr. Qed.
+Print Assumptions C13_nm_expr.
